@@ -102,82 +102,111 @@ def det_worker(args):
         res["describe"] = defn.describe()
         res["closed"] = closed
         sy = defn.sy
-        out, _ = spec_ode(defn, events, odes, workdir, "det%d" % idx, want=["jac"])
-        ode_polys = [codec.P(t) for t in out["ode"]]
-        jac_polys = [[codec.P(t) for t in row] for row in out["jac"]]
-        if cat is not None:
-            # the catalogue object must be the transcribed model
-            from harness import oracle_model as om
-            mm = om.compare_model(defn, m, out, [], ["ode"], rng, numeric=False, npoints=2, reactant=False)
-            if mm:
-                res["findings"].append({"what": "catalogue model differs from its published equations", "detail": str(mm[0])[:300]})
-                return res
-        m.parameters = [float(v) for v in theta]
-        rhs = refnum.rhs_from_spec(sy, ode_polys, theta)
-        calls = rd.entry_calls(rng, opts.get("quick", True))
-        traces, meta = [], []
-        # what the integrators must be set up with: the specification's f and df/dx at the initial point
-        f_fun = refnum.compile_polys(sy, ode_polys)
-        J_fun = refnum.mat_from_spec(sy, jac_polys)
-        for (entry_name, method, fo, io) in calls:
-            special = None
-            # grids that contain the initial time or a repeated time: only on the routes whose integrator accepts a
-            # zero-length step: the odeint routes (scipy.integrate.ode wrappers may report failure on it: outside the quantifier,
-            # DESIGN section 8)
-            zero_ok = entry_name in ("integrate", "solve_determ")
-            if zero_ok and rng.random() < 0.4:
-                special = rng.choice(["origin", "repeat"])
-            # whole-number requested times handed over as integers, after a fractional initial time; or plain lists / tuples
-            times_as = None
-            if special is None and rng.random() < 0.3:
-                if tend >= 2.0 and rng.random() < 0.6:
-                    special = "int"
-                    times_as = rng.choice(["int-list", "int-array"])
-                else:
-                    times_as = rng.choice(["list", "tuple"])
-            grid = rd.time_grid(rng, tend, special=special)
-            v0 = [float(v) for v in x0] + [float(grid[0])] + [float(v) for v in theta] + [0.0] * sy.nd
-            f_ref = np.array(f_fun(v0), float)
-            J_ref = J_fun(v0)
+        for phase in (0, 1):
+            if phase == 1:
+                # THE SAME model object, already solved, is extended (add_event / add_transition / add_birth_death /
+                # add_ode) and solved again: the later solutions must be those of the extended definition
+                if cat is not None or not opts.get("extend") or rng.random() >= opts["extend"] or res["findings"] or res["rejected"]:
+                    break
+                proc = rd.extra_process(rng, defn)
+                route = rng.choice(build.valid_routes(proc))
+                try:
+                    if route == "ODE":
+                        from pygom import Transition
+                        terms = build.ode_terms_of_event(sy, proc)
+                        for st_, eqn in terms:
+                            m.add_ode(Transition(origin=sy.states[st_ - 1], equation=codec.render(sy, eqn, rng.randrange(6), rng),
+                                                 transition_type="ODE"))
+                        odes = list(odes) + [{"kind": "ode", "st": st_, "eqn": eqn} for st_, eqn in terms]
+                    else:
+                        _slot, adder, obj = build.api_object(sy, proc, route, codec.render(sy, proc["rate"], rng.randrange(6), rng),
+                                                             style=rng.randrange(6), rng=rng)
+                        getattr(m, adder)(obj)
+                        events = list(events) + [proc]
+                except Exception as ex:
+                    res["findings"].append({"what": "extending a solved model raised", "detail": repr(ex)[:300]})
+                    break
+                closed = closed and all(t["ty"] == "T" for t in proc["trs"])
+                res["extended"] = route
+                res["extended_process"] = {"rate": codec.render(sy, proc["rate"]), "trs": [(t["ty"], t["o"], t["d"]) for t in proc["trs"]]}
+            out, _ = spec_ode(defn, events, odes, workdir, "det%d_%d" % (idx, phase), want=["jac"])
+            ode_polys = [codec.P(t) for t in out["ode"]]
+            jac_polys = [[codec.P(t) for t in row] for row in out["jac"]]
+            if cat is not None:
+                # the catalogue object must be the transcribed model
+                from harness import oracle_model as om
+                mm = om.compare_model(defn, m, out, [], ["ode"], rng, numeric=False, npoints=2, reactant=False)
+                if mm:
+                    res["findings"].append({"what": "catalogue model differs from its published equations", "detail": str(mm[0])[:300]})
+                    return res
+            m.parameters = [float(v) for v in theta]
+            rhs = refnum.rhs_from_spec(sy, ode_polys, theta)
+            calls = rd.entry_calls(rng, opts.get("quick", True))
+            if phase == 1:
+                calls = calls[:3]
+            traces, meta = [], []
+            # what the integrators must be set up with: the specification's f and df/dx at the initial point
+            f_fun = refnum.compile_polys(sy, ode_polys)
+            J_fun = refnum.mat_from_spec(sy, jac_polys)
+            for (entry_name, method, fo, io) in calls:
+                special = None
+                # grids that contain the initial time or a repeated time: only on the routes whose integrator accepts a
+                # zero-length step: the odeint routes (scipy.integrate.ode wrappers may report failure on it: outside the quantifier,
+                # DESIGN section 8)
+                zero_ok = entry_name in ("integrate", "solve_determ")
+                if zero_ok and rng.random() < 0.4:
+                    special = rng.choice(["origin", "repeat"])
+                # whole-number requested times handed over as integers, after a fractional initial time; or plain lists / tuples
+                times_as = None
+                if special is None and rng.random() < 0.3:
+                    if tend >= 2.0 and rng.random() < 0.6:
+                        special = "int"
+                        times_as = rng.choice(["int-list", "int-array"])
+                    else:
+                        times_as = rng.choice(["list", "tuple"])
+                grid = rd.time_grid(rng, tend, special=special)
+                v0 = [float(v) for v in x0] + [float(grid[0])] + [float(v) for v in theta] + [0.0] * sy.nd
+                f_ref = np.array(f_fun(v0), float)
+                J_ref = J_fun(v0)
+                try:
+                    ref = refnum.solve(rhs, [float(v) for v in x0], grid)
+                except Exception as ex:
+                    res["machinery"] = "reference integration failed: %r" % ex
+                    return res
+                sol, snaps, err = rd.perform_call(m, entry_name, method, fo, io, x0, grid, times_as=times_as)
+                res["calls"] += 1
+                cfgname = "%s/%s/full=%s/origin=%s%s" % (entry_name, method, fo, io, ("" if not special else "/grid=" + special) + ("" if not times_as else "/times=" + times_as) + ("" if phase == 0 else "/after-add"))
+                res["configs"].append(cfgname)
+                setup = rd.judge_setup(rd.perform_call.last_setup, f_ref, J_ref)
+                if err:
+                    res["findings"].append({"what": "deterministic entry point raised", "detail": err, "config": cfgname,
+                                            "shape": "single-state" if sy.ns == 1 else "multi-state"})
+                    continue
+                if sol.ndim != 2 and not (sol.ndim == 1 and sy.ns == 1):
+                    res["findings"].append({"what": "returned solution is not a table", "detail": str(sol.shape), "config": cfgname,
+                                            "shape": "single-state" if sy.ns == 1 else "multi-state"})
+                    continue
+                sol = sol.reshape(sol.shape[0], -1)
+                rel = 1e-5 if method == "odeint" else 1e-7
+                tr = rd.to_call_trace(entry_name, method, fo, io, ref, sol, snaps, closed, rel, setup=setup)
+                traces.append(tr)
+                meta.append({"config": cfgname, "grid": [float(g) for g in grid]})
+                if sol.shape[0] == ref.shape[0] - (0 if io else 1):
+                    r2 = ref if io else ref[1:]
+                    res["maxerr"] = max(res["maxerr"], float(np.max(np.abs(sol - r2)) / (1 + np.max(np.abs(ref)))))
+            if not traces:
+                break
             try:
-                ref = refnum.solve(rhs, [float(v) for v in x0], grid)
-            except Exception as ex:
-                res["machinery"] = "reference integration failed: %r" % ex
+                accepted, rejected, states = validate_calls(traces, meta, workdir, "single-state" if sy.ns == 1 else "multi-state")
+            except report.Machinery as ex:
+                res["machinery"] = str(ex)
                 return res
-            sol, snaps, err = rd.perform_call(m, entry_name, method, fo, io, x0, grid, times_as=times_as)
-            res["calls"] += 1
-            cfgname = "%s/%s/full=%s/origin=%s%s" % (entry_name, method, fo, io, ("" if not special else "/grid=" + special) + ("" if not times_as else "/times=" + times_as))
-            res["configs"].append(cfgname)
-            setup = rd.judge_setup(rd.perform_call.last_setup, f_ref, J_ref)
-            if err:
-                res["findings"].append({"what": "deterministic entry point raised", "detail": err, "config": cfgname,
-                                        "shape": "single-state" if sy.ns == 1 else "multi-state"})
-                continue
-            if sol.ndim != 2 and not (sol.ndim == 1 and sy.ns == 1):
-                res["findings"].append({"what": "returned solution is not a table", "detail": str(sol.shape), "config": cfgname,
-                                        "shape": "single-state" if sy.ns == 1 else "multi-state"})
-                continue
-            sol = sol.reshape(sol.shape[0], -1)
-            rel = 1e-5 if method == "odeint" else 1e-7
-            tr = rd.to_call_trace(entry_name, method, fo, io, ref, sol, snaps, closed, rel, setup=setup)
-            traces.append(tr)
-            meta.append({"config": cfgname, "grid": [float(g) for g in grid]})
-            if sol.shape[0] == ref.shape[0] - (0 if io else 1):
-                r2 = ref if io else ref[1:]
-                res["maxerr"] = max(res["maxerr"], float(np.max(np.abs(sol - r2)) / (1 + np.max(np.abs(ref)))))
-        if not traces:
-            return res
-        try:
-            accepted, rejected, states = validate_calls(traces, meta, workdir, "single-state" if sy.ns == 1 else "multi-state")
-        except report.Machinery as ex:
-            res["machinery"] = str(ex)
-            return res
-        res["accepted"] += accepted
-        res["rejected"] += rejected
-        res["states"] = states
-        res["steps"] += sum(len(tr["events"]) for tr in traces)
-        res["sample"] = {"config": meta[0]["config"], "grid": meta[0]["grid"], "reference_first_rows": traces[0]["ref"][:2],
-                         "scale": traces[0]["scale"], "tol": traces[0]["tol"]}
+            res["accepted"] += accepted
+            res["rejected"] += rejected
+            res["states"] += states
+            res["steps"] += sum(len(tr["events"]) for tr in traces)
+            res["sample"] = {"config": meta[0]["config"], "grid": meta[0]["grid"], "reference_first_rows": traces[0]["ref"][:2],
+                             "scale": traces[0]["scale"], "tol": traces[0]["tol"]}
         res["theta"] = [str(t) for t in theta]
         res["x0"] = [str(v) for v in x0]
     finally:
